@@ -820,8 +820,9 @@ where
 {
     let env = tx.env.clone();
     let mf = env.merge_fn(case.mf);
-    let builder = sorter_builder(mf, cc, knobs);
     let sorter = tx.call("SorterBuilder::build", move || {
+        // the setters run inside the recorded call: their own size arithmetic is judged too
+        let builder = sorter_builder(mf, cc, knobs);
         let s = match knobs.init_cap {
             Some(c) => builder.verif_build_with_initial_capacity(c),
             None => builder.build(),
